@@ -275,7 +275,7 @@ SHRINK = False
 
 
 def plan(tier, seed, n):
-    per_u, per_s = (2, 250) if tier == 'quick' else (60, 12000)
+    per_u, per_s = (5, 800) if tier == 'quick' else (150, 40000)
     specs = [{'fixed': True, 'nu': 0, 'ns': 0}]
     specs += [{'fixed': False, 'nu': per_u, 'ns': per_s} for _ in range(max(n - 1, 1))]
     return specs
